@@ -143,10 +143,15 @@ class World:
         argv.append(self.base + "/" + image)
         if cache_root is not None:
             argv.append(cache_root)
+        import contextlib
+        import io as _io
+
         old = sys.argv
         sys.argv = argv
+        self.cli_stderr = _io.StringIO()
         try:
-            main()
+            with contextlib.redirect_stderr(self.cli_stderr):
+                main()
             return 0
         except SystemExit as e:
             return e.code if isinstance(e.code, int) else (0 if e.code is None else 1)
